@@ -686,6 +686,47 @@ Definition u_ok (u : ucase) : bool :=
   | Some _ => u_ok_patchable u
   end.
 
+(* ------------------------------------------------------------------ which patch method a module gets *)
+(* mcount_arch_find_module: a __patchable_function_entries / xray_instr_map section decides; else the
+   first ordinary function (LOCAL/GLOBAL, name not starting with '_') that begins with one of the four
+   NOP forms makes the module DYNAMIC_FENTRY_NOP; else check_trace_functions (mcount -> PG,
+   __fentry__ -> FENTRY, nothing -> NONE).
+   [fixed = false]: the code as found probes the very first bytes of the function;
+   [fixed = true]: it skips an endbr64 first, as patch_fentry_code does. *)
+Inductive elf_sect := SectNone | SectPatchable | SectXray.
+Definition probe_sym (fixed : bool) (m : mem) (s : sym) : bool :=
+  ((s_type s =? ST_LOCAL_FUNC) || (s_type s =? ST_GLOBAL_FUNC))
+  && negb (match s_name s with c :: _ => c =? 95 | [] => false end)
+  && is_nop_sig (rd m (if fixed then entry_of m (s_addr s) else s_addr s) 5).
+Definition find_module_type (fixed : bool) (sect : elf_sect) (chk : dyntype) (m : mem) (syms : list sym) : dyntype :=
+  match sect with
+  | SectPatchable => DPatchable
+  | SectXray => DXray
+  | SectNone => if existsb (probe_sym fixed m) syms then DFentryNop else chk
+  end.
+(* check_trace_functions' answer as a module type *)
+Definition chk_type (n : Z) : dyntype := match n with 1%Z => DPg | 3%Z => DFentry | _ => DNone end.
+
+Record fcase := {
+  f_chk : Z; f_wbase : N; f_window : bytes; f_syms : list sym;
+  i_type : N                              (* mdi->type the implementation chose *)
+}.
+Definition dyntype_eqb (a b : dyntype) : bool :=
+  match a, b with
+  | DNone, DNone | DPg, DPg | DFentry, DFentry | DFentryNop, DFentryNop | DXray, DXray | DPatchable, DPatchable => true
+  | _, _ => false
+  end.
+Definition f_agrees (fixed : bool) (f : fcase) : bool :=
+  dyntype_eqb (find_module_type fixed SectNone (chk_type (f_chk f)) (mem_of (f_wbase f) (f_window f)) (f_syms f))
+              (dyntype_of (i_type f)).
+(* the property: if some ordinary function of the module can be patched by patch_fentry_code (NOP form
+   at its post-endbr64 entry) the module must get a type that patches *)
+Definition f_ok (f : fcase) : bool :=
+  let m := mem_of (f_wbase f) (f_window f) in
+  if existsb (probe_sym true m) (f_syms f)
+  then match dyntype_of (i_type f) with DFentryNop | DPatchable => true | _ => false end
+  else true.
+
 (* ------------------------------------------------------------------ -Z SIZE on the command line *)
 (* uftrace.c (case 'Z'): strtol(arg, NULL, 0) -> opts->size_filter (int);  cmds/record.c: if non-zero,
    snprintf("%d") -> UFTRACE_MIN_SIZE;  libmcount/dynamic.c: min_size (unsigned) = strtoul(env).
@@ -714,7 +755,7 @@ Local Close Scope Z_scope.
 Record ecase := {
   e_ptype : ptype; e_funcs : bytes; e_defmod : bytes;
   e_regok : list (bytes * bool); e_tbl : list (bytes * bytes * bool);
-  e_ty : N; e_zarg : Z; e_lib : bytes;
+  e_sect : elf_sect; e_chk : Z; e_zarg : Z; e_lib : bytes;
   e_text_addr : Z; e_text_size : Z; e_next_mapped : bool;
   e_wbase : N; e_before : bytes; e_syms : list sym; e_targets : list N;
   (* observed on the real uftrace record run *)
@@ -722,9 +763,13 @@ Record ecase := {
   o_wx : N; o_tramp_perm : perm; o_env : option Z       (* UFTRACE_MIN_SIZE as the tracee saw it *)
 }.
 Definition e_oracle (e : ecase) : oracle := mk_oracle (e_regok e) (e_tbl e).
+(* the module type: mcount_arch_find_module (repaired probe) on the ELF's sections, the native code
+   window and the symbols in it *)
+Definition e_type (e : ecase) : dyntype :=
+  find_module_type true (e_sect e) (chk_type (e_chk e)) (mem_of (e_wbase e) (e_before e)) (e_syms e).
 Definition e_cfg (e : ecase) (tramp : Z) (mn : N) : cfg :=
   {| c_pats := parse_pattern_list (e_oracle e) (e_funcs e) (e_defmod e) (e_ptype e);
-     c_lib := e_lib e; c_so := None; c_ty := dyntype_of (e_ty e); c_tramp := tramp; c_min := mn |}.
+     c_lib := e_lib e; c_so := None; c_ty := e_type e; c_tramp := tramp; c_min := mn |}.
 Definition optZ_eqb (a b : option Z) : bool :=
   match a, b with None, None => true | Some x, Some y => (x =? y)%Z | _, _ => false end.
 Definition e_pm (e : ecase) : pmap :=
@@ -736,7 +781,7 @@ Definition names_eq (a b : list bytes) : bool := names_subset a b && names_subse
 
 Definition e_model (fixed : bool) (e : ecase) : option (bytes * list bytes) :=
   match setup_trampoline_v fixed (e_pm e)
-          {| d_text_addr := e_text_addr e; d_text_size := e_text_size e; d_tramp := 0; d_ty := dyntype_of (e_ty e) |} with
+          {| d_text_addr := e_text_addr e; d_text_size := e_text_size e; d_tramp := 0; d_ty := e_type e |} with
   | SetupFatal => None
   | SetupFail => Some (e_before e, [])
   | SetupOk _ d1 =>
@@ -778,7 +823,7 @@ Definition e_ok_patchable (e : ecase) : bool :=
 
 Definition e_ok (e : ecase) : bool :=
   match setup_trampoline (e_pm e) {| d_text_addr := e_text_addr e; d_text_size := e_text_size e; d_tramp := 0;
-                                     d_ty := dyntype_of (e_ty e) |} with
+                                     d_ty := e_type e |} with
   | None => negb (o_died e) && o_same_output e && o_rc_same e && (o_wx e =? 0)
             && bytes_eqb (e_before e) (o_after e) && names_eq [] (o_traced e)
   | Some _ => e_ok_patchable e
